@@ -37,6 +37,8 @@ CHECKS = {
             "deterministic simulation: exactness of rerun set vs reference closure, preservation and refusal oracles over seeded histories"),
     "C14": ("exploration", "7.14", "cancel-jobs at a drawn moment (after n-th sbatch / launch / exit or at a time), followed by drawn commands and the documented recovery; no sbatch after the canceled flag became visible, scancel coverage against SimSlurm ground truth, results kept, missing accounted",
             "deterministic simulation: ordering invariant (no sbatch after cancel) + scancel coverage vs SimSlurm ground truth"),
+    "C15": ("exploration", "7.15", "pipelines of 1-4 stages (HPC / local mixed, some stages with dependency cycles so that return codes differ) submitted through the real pipeline commands; ordering of every stage's first status write / sbatch / launch against the previous stage's completion, one submission per stage, pipeline.json checked after every write, C03 completeness per stage",
+            "deterministic simulation: ordering / exactly-once per stage over seeded schedules, pipeline.json invariant after every write"),
     "C16": ("exploration", "7.16", "hook commands recorded by the shell stub with env and sequence number; counts and ordering per submission / per batch, HPC and local",
             "deterministic simulation: ordering / exactly-once oracle on recorded hook commands"),
     "C18": ("exploration", "7.18", "script options compared field by field with the generated SlurmConfig at every sbatch (option names validated against sbatch's vocabulary); conservative status and bounded retries in world runs and component simulations",
@@ -51,7 +53,7 @@ NOT_APPLICABLE = [
     {"property_id": "C17", "reason": "pure function of one input evaluated by one sequential process: no schedule, clock, fault or second party for a simulator to control (DESIGN.md 7.17)"},
 ]
 
-PENDING = {p: "check not built yet in this session (planned, DESIGN.md section 7); no claim is made" for p in ("C15",)}
+PENDING = {}
 
 
 def main():
